@@ -63,13 +63,6 @@ theorem alookup_none_iff {α : Type} (k : Str) (xs : List (Str × α)) :
 
 /-! ### header names -/
 
-/-- a character that may occur in a header segment -/
-def okChar (c : Char) : Bool :=
-  c != '.' && c != ':' && c != '=' && c != '*' && !pyWs c && c != '{'
-
-/-- a header segment: non-empty, no `.`, `:`, `=`, `*`, `{`, no whitespace -/
-def simpleName (n : Str) : Bool := !n.isEmpty && n.all okChar
-
 /-- a (dotted) header: like a segment, but `.` allowed -/
 def keyChar (c : Char) : Bool := c != ':' && c != '=' && c != '*' && !pyWs c
 
@@ -234,9 +227,6 @@ theorem rowEntries_plain (sch : Schema) (hb : sch.ctxBasic = []) (hm : sch.ctxMa
   rw [expandAll_plain]
 
 /-! ### round trip of a record, field by field -/
-
-/-- first segment of a dotted header -/
-def headSeg (k : Str) : Str := k.takeWhile (· ≠ '.')
 
 theorem headSeg_simple {n : Str} (h : simpleName n = true) : headSeg n = n := by
   unfold headSeg
